@@ -279,6 +279,14 @@ def check(col: Collector, tier: str):
             "history [transform q1; transform q2; write q2]: what q1 declared (method types, enums, job scripts) must be gone before q2 "
             "is transformed; " + why, aat.loc)
 
+    # the pending-translation guard lives on the executor, the registries it protects are process-wide: an unfinished translation on
+    # ANOTHER executor is not seen by it
+    if "pending-flag protocol" in why:
+        glob_cells = sorted(c for c in covered if c.startswith("G:"))
+        col.add("C07.R12", "executor.apply_ast_transformations", "pending-guard-has-the-extent-of-the-state-it-protects", not glob_cells,
+                f"the pending flag is an attribute of one executor, but what an unfinished translation leaves behind is in {glob_cells}: history "
+                "[executor A transforms a query declaring pt -> int and never writes it; a NEW executor B translates a plain query] gives B the int column",
+                aat.loc)
     # ---------------- R5 registries not imported by value
     regs = {c.rpartition(".")[2]: c for c in covered if c.startswith("G:")}
     for m in repo.modules.values():
